@@ -22,7 +22,9 @@ class Story:
         self.sim.merkle_headers = True
         self.fs = fullsim.FullSim(self.sim, deviations=shape.get('deviations', 0),
                                   max_steps=shape.get('max_steps', 900), with_sessions=shape.get('sessions', True),
-                                  split_jobs=shape.get('split_jobs', False))
+                                  split_jobs=shape.get('split_jobs', False), real_odb=shape.get('real_odb', False))
+        if shape.get('real_odb', False):
+            self.sim.real_txids = True
         self.fs.sched.window = shape.get('window')
         self.main = []               # the daemon's current chain (RBlocks)
         self.mp = {}                 # name -> prepared RTx
